@@ -184,6 +184,30 @@ def run_cases(run, tier, seed, tag, with_ref_events=True):
                             "repeat_mask": rm, "threads": 1, "ctx": ctx})
             run.evaluations += 1
             run.nontriv(["synthetic", contigs, rows, am, rm])
+        # the real AlnWriter driven directly on large random shapes (beyond MC_AlnWriter's bound)
+        aln_ops = []
+        for ci in range(12 if tier == "quick" else 150):
+            k = rng.choice([5, 7, 9, 15, 21, 31, 41, 63])
+            h = (k - 1) // 2
+            nc = rng.randint(1, 4)
+            lens = [rng.choice([0, 1, h, k - 1, k, k + 1, 2 * k, rng.randint(2 * k, 5 * k + 20)]) for _ in range(nc)]
+            contigs = [gen.rand_seq(rng, n, "ACGTacgtN") for n in lens]
+            writes = []
+            for c, n in enumerate(lens):
+                p = h
+                while p + h <= n - 1:
+                    if rng.random() < rng.choice([0.1, 0.5, 0.9]):
+                        writes.append([p, c, ord(rng.choice("ACGTRYN"))])
+                    p += rng.choice([1, 1, 1, 2, h, h + 1, h + 2, k, k + 3])
+            total = sum(lens)
+            reps = sorted(rng.sample(range(total), min(total, rng.choice([0, 0, 3, 10])))) if total else []
+            ctx = {"k": k, "contigs": [b(c) for c in contigs], "repeats": reps, "mask_ambig": rng.random() < 0.5, "writes": writes}
+            aln_ops.append({"op": "aln", "id": 7000 + ci, "k": k, "contigs": ctx["contigs"], "repeats": reps,
+                            "mask_ambig": ctx["mask_ambig"], "writes": writes, "ctx": ctx})
+            run.evaluations += 1
+            if writes:
+                run.nontriv(["alnrun", lens, writes[:5], k])
+        events += vlib.skav_parallel("exec", aln_ops, jobs=8)
         for ev in vlib.skav_parallel("exec", lib_ops, jobs=8):
             ev["via"] = "lib"
             if ev.get("panic", "") == "":
